@@ -480,6 +480,30 @@ def main(ck):
                       "one command applied to the real catalogue, dumped and checked by the direct oracle; non-trivial = the case ends "
                       "with at least two shard groups in the catalogue; distinct = different command lists")
     ck.cov["command_histogram"] = hist
+    # the guard of DeleteShardGroup(CancelDelete): its DECISION per command (the group was marked deleted before the command; live after
+    # = accepted, still deleted = refused) is part of the compared state; both outcomes, and refusals owed to a live group that does
+    # NOT contain the revived group's start, must occur in every run
+    dec = {"accepted": 0, "refused": 0, "refused_by_group_not_covering_the_start": 0}
+    def groups_of(dump):
+        return {g["id"]: (g, db["key"], rp["key"]) for db in dump["dbs"] for rp in db["rps"] for g in rp["sgs"]}
+    for cs in cases:
+        for i, (c, r) in enumerate(zip(cs["cmds"], cs["res"])):
+            if c["k"] == "delsg" and c.get("x") == "cancel" and r == 0 and i > 0:
+                a, b = groups_of(cs["dumps"][i - 1]), groups_of(cs["dumps"][i])
+                gid = c.get("id", 0)
+                if gid in a and gid in b and a[gid][0]["deleted"]:
+                    if b[gid][0]["deleted"]:
+                        dec["refused"] += 1
+                        g, dbk, rpk = a[gid]
+                        live = [x for x, d2, r2 in a.values() if d2 == dbk and r2 == rpk and not x["deleted"] and x["eng"] == g["eng"]
+                                and int(x["start"]) < int(g["end"]) and int(g["start"]) < int(x["end"])]
+                        if live and not any(int(x["start"]) <= int(g["start"]) < int(x["end"]) for x in live):
+                            dec["refused_by_group_not_covering_the_start"] += 1
+                    else:
+                        dec["accepted"] += 1
+    ck.cov["cancel_delete_decisions"] = dec
+    if not getattr(ck, "replay", None) and min(dec.values()) == 0:
+        ck.broken.append("cancel-delete guard: an outcome was not exercised in this run: %s" % dec)
     dispatch_table(ck, hist)
     ck.cov["implementation_matches_variant"] = impl
     ck.cov["samples"] = [c["cmds"][:8] for c in cases[4:6]]
